@@ -329,4 +329,22 @@ CHECKS = {
         "min_obs": {"counter_ops": 50000, "windows_checked": 5000, "accounted_bytes": 1000000, "quota_probes": 50},
         "timeout": {"quick": 900, "thorough": 14000},
     },
+    "C20": {
+        "scenarios": [("C20-config", "vreal")],
+        "rule": "per case 8 generated valid client configurations (1-3 profiles, names/passwords with URL-, JSON- and shell-special and "
+                "non-ASCII characters and maximum lengths, IP/domain/both servers, ports and port ranges incl. single-port ranges, "
+                "optional MTU/multiplexing/handshake/traffic pattern, socks5 authentication, advanced settings) and 8 server "
+                "configurations (users by password / hashed password / both, quotas, flags, egress proxies and rules, DNS hosts, "
+                "traffic pattern), in both file formats selected through the MIERU_/MITA_ environment variables in a temporary "
+                "directory: store->load equivalence, plaintext password tokens searched in the stored file (raw and JSON-escaped), "
+                "mieru:// and mierus:// export->import, client and server patches (one section at a time; unset sections must keep "
+                "their value), start/stop of a client mux on the simulated network, and ~140 malformed links and JSON texts per case "
+                "offered to every parse/import/apply entry point under recover()",
+        "technique": "runtime monitor: round-trip / patch / totality laws over generated configurations and malformed inputs, inputs "
+                     "written to disk before each call",
+        "text": "Validators are the gate for what counts as valid; equivalence is proto.Equal modulo the documented password hashing.",
+        "note": "trusted: protobuf equality, the reference password hash; the generator only produces configurations the validators accept",
+        "design_ref": "DESIGN.md section 4, C20",
+        "min_obs": {"configs": 500, "links": 300, "patches": 400, "malformed_inputs": 5000},
+    },
 }
